@@ -22,6 +22,7 @@ func main() {
 	tier := flag.String("tier", "quick", "quick|thorough")
 	replay := flag.String("replay", "", "violation report to re-evaluate")
 	dump := flag.Bool("dump", false, "dump rule facts for the function specs given as arguments")
+	callers := flag.Bool("callers", false, "print non-test callers of the function specs given as arguments")
 	warm := flag.Bool("warm", false, "load the workspace once (warms the build cache) and exit")
 	flag.Parse()
 	if t := os.Getenv("VERIF_TIER"); t != "" && (t == "quick" || t == "thorough") {
@@ -71,6 +72,27 @@ func main() {
 				continue
 			}
 			ir.Dump(os.Stdout, P.Fset, fn)
+		}
+		return
+	}
+	if *callers {
+		res := &report.Result{FuncsTouched: map[string]bool{}}
+		ctx := rules.NewCtx(P, "x", "quick", res)
+		cg := ctx.CallGraph()
+		for _, spec := range flag.Args() {
+			fn := P.Func(spec)
+			if fn == nil {
+				fmt.Println("unresolved:", spec)
+				continue
+			}
+			fmt.Println("==", ir.FuncName(fn))
+			last := ""
+			for _, cs := range cg.CallersOf(ir.FuncName(fn)) {
+				if cs.Name != last {
+					fmt.Printf("   %s   (%s)\n", cs.Name, cs.Pos)
+				}
+				last = cs.Name
+			}
 		}
 		return
 	}
